@@ -283,7 +283,7 @@ pub fn gen_noise_class(rng: &mut Rng, class: NoiseClass, max: usize) -> Vec<u8> 
         NoiseClass::Zeros => vec![0u8; rng.range(1, 20)],
         NoiseClass::All1b => vec![0x1bu8; rng.range(1, 20)],
         NoiseClass::Long => {
-            let n = *rng.pick(&[255usize, 256, 257, 1000, 4000]);
+            let n = *rng.pick(&[255usize, 256, 257, 1000, 4000, 65_535, 65_536, 65_537, 70_000]);
             let n = n.min(max.max(1));
             match rng.below(3) {
                 0 => vec![0u8; n],
